@@ -23,7 +23,7 @@ DRV_NEEDED = {'C02': ['drv', 'drv_print', 'drv_srch'], 'C03': ['drv', 'drv_srch'
 # which harness components (cargo features `c_<name>` of /verif/harness) a property's check runs. The harness is normally built with all
 # of them; if that build fails (a component no longer compiles against the current /repo) the build is retried with only the components
 # this property needs, so a broken component raises an alarm only for the properties tied through it.
-HARNESS_NEEDED = {'C01': [], 'C02': ['gate', 'line', 'proc', 'prt', 'srch', 'sysl', 'syslc'], 'C03': ['proc', 'srch', 'sysl'], 'C04': ['patsel', 'rgx', 'time'],
+HARNESS_NEEDED = {'C01': [], 'C02': ['gate', 'line', 'proc', 'prt', 'srch', 'sysl', 'syslc'], 'C03': ['proc', 'srch', 'sysl', 'fixedfile'], 'C04': ['patsel', 'rgx', 'time'],
                   'C05': ['asm', 'strm', 'tarmember'], 'C06': [], 'C07': [], 'C08': ['fixed', 'fixedfile', 'frender', 'layout'], 'C09': ['jrender'], 'C10': [], 'C11': ['year'],
                   'C12': ['boxp', 'gate', 'line', 'patsel', 'proc', 'prt'], 'C13': ['prt'], 'C14': [], 'C15': ['walk', 'walktar'], 'C16': ['path'], 'C17': [], 'C18': [],
                   'C19': ['prt']}
